@@ -124,7 +124,7 @@ Fixpoint nodupb (l : list N) : bool :=
   | x :: r => negb (existsb (N.eqb x) r) && nodupb r
   end.
 
-Definition wf_storeb (st : store) : bool :=
+Definition wf_core (st : store) : bool :=
   linked None (tail_h st) (s_chain st)
   && match s_chain st with
      | [] => true
@@ -133,6 +133,15 @@ Definition wf_storeb (st : store) : bool :=
   && forallb (fun h => h_height h <? two64) (all_hdrs st)
   && nodupb (map h_id (all_hdrs st))
   && nodupb (map h_height (all_hdrs st)).
+
+(** a stored header whose LastHeader is the hash of a stored header sits exactly one above it
+    (also above a gap, where [linked] says nothing) *)
+Definition links_ok (st : store) : bool :=
+  forallb (fun h => forallb (fun p => negb (h_prev h =? h_id p) || (h_height h =? h_height p + 1))
+                            (all_hdrs st)) (all_hdrs st).
+
+Definition wf_storeb (st : store) : bool :=
+  wf_core st && forallb (fun h => 1 <=? h_height h) (all_hdrs st) && links_ok st.
 
 Definition wf_store (st : store) : Prop := wf_storeb st = true.
 
@@ -216,6 +225,42 @@ Definition handle (f : fault) (st : store) (rq : req) : reply * list call :=
   | RInvalid => (Reset, [])
   | RHash id _ => let '(r, cs) := handle_hash f st id in (status r, cs)
   | ROrigin o a => let '(r, cs) := handle_range f st o (wrap64 (o + a)) in (status r, cs)
+  end.
+
+(** ** the same handler against a store that changes while the request is served
+
+    The server makes its store calls one after the other (HasAt, Head, GetRange;
+    Head; Get) and other goroutines (the syncer appending, the pruner deleting)
+    may change the store in between.  [env] gives the store content the NEXT call
+    sees, as a function of the kinds of the calls that have already returned
+    (oldest first): any change at any call boundary is an [env].  Each single
+    call reads one content (store.Store serves a call from one read view). *)
+Inductive ckind := KHasAt | KHead | KTail | KGetRange | KGet.
+Definition env := list ckind -> store.
+
+Definition handle_range_d (f : fault) (e : env) (from to : N) : outcome (list hdr) * list call :=
+  if to <=? from then (Fail ERangeMixUp, [])
+  else if from =? 0 then handle_head f (e [])
+  else if max_req <? sub64 to from then (Fail ELimit, [])
+  else
+    let top := sub64 to 1 in
+    if has_at (e []) top then serve_range f (e [KHasAt]) from to [CHasAt top]
+    else
+      let pre := [CHasAt top; CHead] in
+      match call_head f (e [KHasAt]) with
+      | Fail x => (Fail x, pre)
+      | Crash => (Crash, pre)
+      | Ret hd =>
+        if h_height hd <? from then (Fail ENotFound, pre)
+        else if top <=? h_height hd then (Fail ENotFound, pre)
+        else serve_range f (e [KHasAt; KHead]) from (wrap64 (h_height hd + 1)) pre
+      end.
+
+Definition handle_d (f : fault) (e : env) (rq : req) : reply * list call :=
+  match rq with
+  | RInvalid => (Reset, [])
+  | RHash id _ => let '(r, cs) := handle_hash f (e []) id in (status r, cs)
+  | ROrigin o a => let '(r, cs) := handle_range_d f e o (wrap64 (o + a)) in (status r, cs)
   end.
 
 (** ** projections of the call log *)
